@@ -1,6 +1,6 @@
 (* C20 — property theorems only. Each is closed by [exact] of a lemma of Proofs.v. *)
 From Coq Require Import List ZArith QArith Bool Permutation.
-From Gst Require Import lib.QAux C20.Model C20.Spec C20.Proofs C20.Generic C20.Cyclic C20.Scale C20.Select.
+From Gst Require Import lib.QAux C20.Model C20.Spec C20.Proofs C20.Generic C20.Cyclic C20.Scale C20.Select C20.HullModel C20.Hull.
 Import ListNotations.
 Local Open Scope Q_scope.
 
@@ -104,6 +104,17 @@ Theorem C20_selection_period_monotone : forall pes fs nested s,
   db_polygon_one pes fs false nested s = true -> db_polygon_one pes fs true nested s = true.
 Proof. exact db_polygon_period_monotone. Qed.
 Print Assumptions C20_selection_period_monotone.
+
+(* convex hull (Polygons::createFromDb): the polygon returned by the implementation is validated on every case by the checker
+   hull_ok; an accepted polygon has data points as vertices, is convex with every data point in the intersection of its edge
+   half-planes, and every data point passes the inclusion test of the closed ring or lies on its boundary *)
+Theorem C20_hull_certificate : forall pts hull, hull_ok pts hull = true -> hull_spec pts hull.
+Proof. exact hull_ok_sound. Qed.
+Print Assumptions C20_hull_certificate.
+Example C20_hull_nonvacuous :
+  hull_ok [(0, 0); (2, 0); (1, 1); (2, 2); (0, 2); (1, 0)] [(0, 0); (2, 0); (2, 2); (0, 2); (0, 0)] = true /\
+  hull_ok [(0, 0); (2, 0); (1, 1); (2, 2); (0, 2); (1, 0)] [(0, 0); (2, 0); (1, 1); (0, 2); (0, 0)] = false.
+Proof. split; vm_compute; reflexivity. Qed.
 
 Example C20_nonvacuous :
   let pts := [(0,0); (6,0); (6,4); (5,2); (4,4); (3,2); (2,2); (1,4); (0,4); (0,0)] in
